@@ -1060,14 +1060,14 @@ class Scripts:
                 cfg.update({'bw': bw, 'sf': sf, 'cr': cr, 'implicit': int(implicit), 'syncword': sw, 'preamble': pre})
             else:
                 lo, hi = (1200.0, 300000.0) if mod == FSK else (1200.0, 25000.0)
-                br = r.choice([1200.0, 4800.0, 9600.0, hi, self.pick_float(lo, hi)])
+                br = r.choice([1200.0, 4800.0, 9600.0, hi, self.pick_valid_float(lo, hi)])
                 self.emit('fsk_ook_set_bitrate %d' % f32bits(br))
                 cfg['bitrate'] = br
                 if mod == FSK:
-                    fd = r.choice([600.0, 5000.0, 200000.0, self.pick_float(600.0, 200000.0)])
+                    fd = r.choice([600.0, 5000.0, 200000.0, self.pick_valid_float(600.0, 200000.0)])
                     self.emit('fsk_set_fdev %d' % f32bits(fd))
                     cfg['fdev'] = fd
-                rxbw = r.choice([2600.0, 5000.0, 20000.0, 250000.0, self.pick_float(2600.0, 250000.0)])
+                rxbw = r.choice([2600.0, 5000.0, 20000.0, 250000.0, self.pick_valid_float(2600.0, 250000.0)])
                 self.emit('fsk_ook_rx_set_bandwidth %d' % f32bits(rxbw))
                 fmt = r.choice([0x00, 0x80])
                 ln = r.choice([1, 255, 256, 1024, 1500, 2047, r.randint(1, 2047)]) if fmt == 0 else r.choice([255, 2047, r.randint(1, 255)])
@@ -1168,6 +1168,13 @@ class Scripts:
             self.emit('irq')
             self.emit('rx_get_packet_rssi')
             self.emit('set_opmod 1 0')
+
+    def pick_valid_float(self, lo, hi):
+        """a binary32 value inside the documented range (the configuration must be accepted)"""
+        while True:
+            x = bits_f32(f32bits(self.pick_float(lo, hi)))
+            if lo <= x <= hi:
+                return x
 
     def pick_float(self, lo, hi):
         r = self.rnd
